@@ -36,6 +36,8 @@ def run(model, res, tier):
     res.rule('R6', 'each parse reads its own token stream (private lexer): an evaluation nested in a callback cannot disturb the outer one (shared with C03.R1)')
     res.rule('R7', 'per-parser state is per parser: no instance attribute starts out as an object shared between parser objects, so an evaluation '
              'depends only on what was registered on its own parser (shared with C03.R2)')
+    res.rule('R8', 'event delivery runs over a snapshot of the listener list: a listener that leaves (a once-listener) during delivery cannot make '
+             'another listener be skipped, so the first and the second evaluation of a formula see the same listeners (shared with C20.R1)')
     res.assumptions += ['A1 host callbacks are opaque (their own effects are the host\'s)',
                         'A3 ply keeps only the last parse\'s stacks (third-party retention not analysed)']
     res.trusted += ['CPython ast', 'hand-written ownership models of builtins/stdlib calls (hxsa/effects.py)',
@@ -44,7 +46,7 @@ def run(model, res, tier):
     eff = c.effects
     res.analysed['functions analysed by E5'] = len(eff.analysed)
     res.analysed['mutation events seen'] = len(eff.events)
-    n = purity.check_region(res, c, 'R1', 'R2', reach, 'evaluation')
+    n = purity.check_region(res, c, 'R1', 'R2', reach, 'evaluation', lints=('shared',))
     res.floor('distinct mutation events in reachable code', n, 10)
     _positive_control(res)
     H.safely(res, 'R3', 'r3', _r3, model, res, c)
@@ -53,6 +55,13 @@ def run(model, res, tier):
     from . import c03
     c03._r1(model, res, c, 'R6')
     c03.instance_state(model, res, c, 'R7')
+    from . import c20
+
+    def delivery(tmp):
+        for em_m, em_c in c20.find_emitter(model):
+            methods = dict((n.name, n) for n in em_c.body if isinstance(n, ast.FunctionDef))
+            c20._r1(model, tmp, em_m, em_c, methods, c20.storage_attr(em_m, em_c, methods))
+    H.borrow(res, 'R8', 'event delivery', delivery)
     res.ob('R5', 'package', 'memo decorators on %d reachable functions examined' % len(reach), True, '%d found' % k)
 
 
